@@ -23,8 +23,9 @@ line).
 from . import _loop
 
 NAME = "simpleloop"
-STATUS = "model+differential"
-THEOREMS = []
+STATUS = "theorem"
+THEOREMS = ["Cspuz.C11.Simpleloop.program_iff_rules", "Cspuz.C11.Simpleloop.total"]
+LEAN_FILE = "C11_Simpleloop"
 LEAN_CMD = "puz_simpleloop"
 
 _SHAPES = [(1, 1), (1, 2), (2, 1), (1, 3), (3, 1), (2, 2), (2, 3), (3, 2), (2, 4), (4, 2), (3, 3), (3, 4), (4, 3), (2, 3), (3, 2)]
